@@ -21,8 +21,44 @@ EXPLANATION = (
 GL = "llfree::llfree::LLFree::get_local"
 
 
+def r_put_accepts(rep, prog, rule="R-SYNC-THRESH"):
+    """The counter taken by Trees::sync has to fit into the reservation: LocalTree::put (behind Locals::put) may refuse only a vacant
+    slot or another tree, never a counter value up to TREE_FRAMES."""
+    LT = "llfree::local::LocalTree::"
+    b = lib.need_body(prog, LT + "put")
+    rep.saw(b.name)
+    tm = T.Terms(b, prog)
+    TF = prog.crate("llfree").const("llfree::TREE_FRAMES")
+    somes = [bi for bi, si, rv in lib.assignments_to_return(b) if si != "term" and rv["k"] == "aggregate" and rv["kind"].get("variant") == "Some"]
+    bad = []
+    for bi in somes:
+        for s_, d_ in lib.controlling_edges(b, bi):
+            c = tm.operand(b.term(s_)["discr"])
+            pol = lib.bool_edge_polarity(b, s_, d_)
+            cc = T.canon(c)
+            if cc[0] == "call" and cc[1] == LT + "present" and pol is True:
+                continue
+            if cc[0] == "call" and cc[1].endswith(("PartialEq>::eq", "PartialEq::eq")) and pol is True:
+                continue
+            if cc[0] == "call" and cc[1].endswith(("PartialEq>::ne", "PartialEq::ne")) and pol is False:
+                continue
+            cm = lib.normalize_cmp(c) if c[0] == "bin" else None
+            if cm and pol is not None:
+                lhs, rel, rhs = cm if pol else lib.negate_rel(cm)
+                if rel in ("gt", "ge"):
+                    lhs, rhs, rel = rhs, lhs, {"gt": "lt", "ge": "le"}[rel]
+                # the overflow assertion `self.free() + free <= TREE_FRAMES` (panics otherwise) is fine; anything tighter refuses legal values
+                if rel == "le" and T.const_val(rhs) == TF and T.mentions_call(lhs, LT + "free"):
+                    continue
+            bad.append("%s (on its %s edge)" % (T.show(c)[:80], pol))
+    rep.check(bool(somes) and not bad, rule, "LocalTree::put|accepts", "refuses only a vacant slot or another tree (plus the <= TREE_FRAMES assertion)",
+              "LocalTree::put also refuses under `%s`: a counter that Trees::sync took from the reserved tree (up to TREE_FRAMES) cannot be "
+              "installed, get_local gives it back to the reserved tree and reports out-of-memory" % "; ".join(bad), b.span)
+
+
 def run(rep, programs):
     prog = programs["core"]
+    r_put_accepts(rep, prog)
     rule = "R-SYNC-THRESH"
     rep.rule(rule, "sync fires iff g >= 2^order - l (composition of get_local's `min` and Tree::sync_steal's comparison)")
     b = lib.need_body(prog, GL)
